@@ -129,7 +129,7 @@ def _cases(tier):
 def shards(tier, seed):
     n = sum(1 for _ in _cases(tier))
     k = 64 if tier == "quick" else 256
-    return [(tier, seed, s, k) for s in range(min(k, n))]
+    return [(tier, seed, s, k) for s in range(min(k, n))] + [(tier, seed, "perm", pi) for pi in range(len(list(perm_programs())))]
 
 
 def _fault_sets(prog, tier, family):
@@ -256,6 +256,9 @@ def _compare(ref, ref_calls, x, faults):
 def run_shard(shard):
     tier, seed, s, k = shard
     acc = Acc()
+    if s == "perm":
+        perm_shard(acc, k, tier)
+        return acc
     for ci, (family, prog, inputs, ords) in enumerate(_cases(tier)):
         if ci % k != s:
             continue
@@ -279,6 +282,158 @@ def run_shard(shard):
     return acc
 
 
+# ---------------------------------------------------------------- node-list permutations of cyclic / signal / gated programs
+def perm_programs():
+    """Deterministic cyclic programs with ordering signals and gates whose ready sets contain, on RE-execution, a producer together
+    with its waiter / a gate together with its target - the situations in which a scan over the node list could let the list
+    order leak into the schedule.  Output names are unique (self-accumulators produce their own input only)."""
+    cap = "min({} + 1, 4)"
+    yield (
+        "pingpong-emit-waiter",
+        T.prog(
+            [
+                T.fn("bv", ["u"], ["v"], behav={"py": cap.format("u")}),
+                T.fn("bu", ["v"], ["u"], behav={"py": cap.format("v")}),
+                T.fn("build", ["u", "v"], ["item"], emit=["tick"], behav={"py": "u + v"}),
+                T.fn("obs", ["item", "log"], ["log"], wait_for=["tick"], behav={"py": "log + (item,)"}),
+            ]
+        ),
+        {"u": 0, "log": []},
+    )
+    yield (
+        "pingpong-emit-only-waiter",
+        T.prog(
+            [
+                T.fn("bv", ["u"], ["v"], behav={"py": cap.format("u")}),
+                T.fn("bu", ["v"], ["u"], behav={"py": cap.format("v")}),
+                T.fn("mark", ["u", "v"], [], emit=["tick"]),
+                T.fn("obs", ["u", "log"], ["log"], wait_for=["tick"], behav={"py": "log + (u,)"}),
+            ]
+        ),
+        {"u": 0, "log": []},
+    )
+    yield (
+        "loop-gate-waits-signal-side-waiter",
+        T.prog(
+            [
+                T.fn("step", ["count"], ["count"], emit=["turn"], behav={"py": "count + 1"}),
+                T.route("gt", ["count"], ["step", "END"], wait_for=["turn"], behav={"py": "'step' if count < 3 else END"}),
+                T.fn("obs", ["count", "log"], ["log"], wait_for=["turn"], behav={"py": "log + (count,)"}),
+            ]
+        ),
+        {"count": 0, "log": []},
+    )
+    yield (
+        "loop-two-body-signal-after",
+        T.prog(
+            [
+                T.fn("gen", ["msgs"], ["resp"], behav={"py": "len(msgs)"}),
+                T.fn("acc", ["msgs", "resp"], ["msgs"], behav={"py": "msgs + (resp,)"}),
+                T.fn("persist", ["msgs"], [], emit=["saved"]),
+                T.route("gt", ["msgs"], ["gen", "END"], wait_for=["saved"], default_open=False, behav={"py": "'gen' if len(msgs) < 3 else END"}),
+            ]
+        ),
+        {"msgs": []},
+    )
+    yield (
+        "loop-waiter-on-data-name",
+        T.prog(
+            [
+                T.fn("refine", ["a"], ["a"], behav={"py": "a + 1"}),
+                T.route("gt", ["a"], ["refine", "END"], behav={"py": "'refine' if a < 3 else END"}),
+                T.fn("scale", ["a"], ["d"], behav={"py": "a * 10"}),
+                T.fn("audit", ["d", "log"], ["log"], wait_for=["a"], behav={"py": "log + (d,)"}),
+            ]
+        ),
+        {"a": 0, "log": []},
+    )
+    yield (
+        "loop-gated-gate",
+        T.prog(
+            [
+                T.fn("inc", ["c"], ["c"], behav={"py": "c + 1"}),
+                T.ifelse("outer", ["c"], "inner", "END", behav={"py": "c < 4"}),
+                T.route("inner", ["c"], ["inc", "tap"], multi=True, behav={"py": "['inc', 'tap'] if c == 2 else ['inc']"}),
+                T.fn("tap", ["c"], ["seen"], behav={"py": "('tap', c)"}),
+            ]
+        ),
+        {"c": 0},
+    )
+    yield (
+        "two-gates-one-target-in-loop",
+        T.prog(
+            [
+                T.fn("inc", ["c"], ["c"], behav={"py": "c + 1"}),
+                T.route("g1", ["c"], ["inc", "END"], behav={"py": "'inc' if c < 3 else END"}),
+                T.ifelse("g2", ["c"], "show", "END", default_open=False, behav={"py": "c % 2 == 1"}),
+                T.fn("show", ["c"], ["seen"], behav={"py": "('show', c)"}),
+            ]
+        ),
+        {"c": 0},
+    )
+    yield (
+        "emitting-gate-late-input",
+        T.prog(
+            [
+                T.fn("wtr", ["x", "z", "log"], ["log"], wait_for=["logged"], behav={"py": "log + ((x, z),)"}),
+                T.fn("step", ["x"], ["x"], behav={"py": "x + 1"}),
+                T.route("gt", ["x"], ["step", "END"], emit=["logged"], behav={"py": "'step' if x < 3 else END"}),
+                T.fn("nc", ["x"], ["y"], behav={"py": "x * 2"}),
+                T.fn("nd", ["y"], ["z"], behav={"py": "y + 1"}),
+            ]
+        ),
+        {"x": 0, "log": []},
+    )
+
+
+def perm_shard(acc, pi, tier):
+    """Every permutation of the node list (N <= 4: all; N = 5: all 120 in the thorough tier, rotations + reversal + adjacent swaps
+    in the quick tier) x both runners (async: FIFO completion and, per permutation, reverse completion) against the identity order."""
+    name, prog, inputs = list(perm_programs())[pi]
+    n = len(prog["nodes"])
+    ident = list(range(n))
+    if n <= 4 or tier == "thorough":
+        perms = [list(p) for p in itertools.permutations(ident)]
+    else:
+        perms = [ident[k:] + ident[:k] for k in range(n)] + [ident[::-1]]
+        perms += [ident[:k] + [ident[k + 1], ident[k]] + ident[k + 2 :] for k in range(n - 1)]
+    hb = H()
+    xb = execute(T.set_async(prog, False), inputs, runner="sync", h=hb, max_iterations=60)
+    base = (xb.view(), _calls(hb))
+    if xb.status != "completed":
+        acc.violation({"symptom": "perm-base-not-completed", "program": name}, {"perm_family": pi}, f"{name}: identity-order sync run did not complete: {jsonable(xb.view())}")
+        return
+
+    class _Last:
+        def choose(self, kind, label, k):
+            return k - 1 if kind == "sched" else 0
+
+    for perm in perms:
+        for runner, chooser in (("sync", None), ("async", None), ("async-lifo", _Last())):
+            pr = T.set_async(prog, runner != "sync")
+            pr["order"] = perm
+            h = H(chooser, suspend=runner != "sync")
+            x = execute(pr, inputs, runner="sync" if runner == "sync" else "async", chooser=chooser, h=h, max_iterations=60)
+            acc.evaluations += 1
+            acc.traces += 1
+            acc.transitions += len(h.steps)
+            acc.key(("perm", name, tuple(perm), runner))
+            acc.state(("perm", name, tuple(perm)))
+            acc.outcomes[("perm", name, x.status)] += 1
+            got = (x.view(), _calls(h))
+            if got != base:
+                what = "outcome" if got[0] != base[0] else "multiset of node invocations"
+                d = got[0] if got[0] != base[0] else list(((got[1] - base[1]) + (base[1] - got[1])).items())[:3]
+                acc.violation(
+                    {"symptom": "node-order-dependence", "program": name, "runner": "sync" if runner == "sync" else "async"},
+                    {"perm_family": pi, "program": prog, "inputs": jsonable(inputs), "order": perm, "runner": runner},
+                    f"{name}: {runner} {what} with node order {perm} differs from the identity order: {jsonable(d)} (identity: {jsonable(base[0])})",
+                    size=sum(1 for a, b in zip(perm, ident) if a != b),
+                )
+            for m in snapshot_violations(h, None):
+                acc.violation({"symptom": "snapshot-isolation", "runner": runner}, {"perm_family": pi, "order": perm, "runner": runner}, m)
+
+
 def coverage_extra(acc, tier, seed):
     return {
         "deviation_bound_completed": 2 if tier == "quick" else "unbounded",
@@ -288,6 +443,9 @@ def coverage_extra(acc, tier, seed):
 
 def replay(rep):
     acc = Acc()
+    if "perm_family" in rep:
+        perm_shard(acc, rep["perm_family"], "thorough")
+        return [v["message"] for v in acc.violations.values()]
     prog = rep["program"]
     faults = frozenset(tuple(f) for f in rep["faults"])
     eh = "continue" if faults else "raise"
